@@ -3,6 +3,7 @@
   Statements (proofs by reference to MicroHttp/Proofs/*).
 -/
 import MicroHttp.ConnSpec
+import MicroHttp.Proofs.Sched
 namespace MicroHttp.C01
 open MicroHttp
 variable {RL H : Type}
@@ -10,12 +11,12 @@ variable {RL H : Type}
 /-- A read that fails (would-block, interrupted, reset, …) changes nothing. -/
 theorem tryRead_err (P : Params RL H) (c : Conn RL H) (hI : Inv P c) (e : Nat) :
     tryRead P c (.err e) = (c, .streamErr e) := by
-  sorry
+  exact tryRead_err' P c hI e
 
 /-- End of stream: reported as closed; descriptors that came with it stay with the connection. -/
 theorem tryRead_eof (P : Params RL H) (c : Conn RL H) (hI : Inv P c) (fds : List Nat) :
     tryRead P c (.data [] fds) = ({ c with files := c.files ++ fds }, .closed) := by
-  sorry
+  exact tryRead_eof' P c hI fds
 
 /-- One `try_read` = running the byte-at-a-time automaton over exactly the bytes it took:
     new deliveries and queued 100-continues, in order, are the automaton's outputs; `Ok` iff the
@@ -32,7 +33,7 @@ theorem tryRead_refines (P : Params RL H) (hP : P.WF) (c : Conn RL H) (hI : Inv 
      | .ok a => out = .ok ∧ absOf c' = a ∧
                 c'.files = (if delivers outs = [] then c.files ++ fds else [])
      | .error e => out = .parseErr e ∧ ParserFresh c') := by
-  sorry
+  exact tryRead_refines' P hP c hI chunk fds hne c' out h outs r hf
 
 /-- Any read schedule over any byte stream, from a new connection: what has been delivered and
     queued is what the automaton outputs on the consumed prefix, and the reported error is the
@@ -46,7 +47,7 @@ theorem sched_refines (P : Params RL H) (hP : P.WF) (L : Nat) (stream : List Byt
       (match err with
        | some e => r = .error e
        | none => r = .ok (absOf c') ∧ Inv P c') := by
-  sorry
+  exact sched_refines' P hP L stream sched c' rest err h
 
 /-- The first error and everything delivered before it are determined by the stream alone;
     so is everything delivered when the whole stream was read. -/
@@ -57,7 +58,7 @@ theorem stream_determines (P : Params RL H) (hP : P.WF) (L : Nat) (stream : List
         c'.parsed = delivers outs ∧ c'.respQ = conts outs) ∧
     (err = none → rest = [] → ∃ outs, feed P L Abs.fresh stream = (outs, .ok (absOf c')) ∧
         c'.parsed = delivers outs ∧ c'.respQ = conts outs) := by
-  sorry
+  exact stream_determines' P hP L stream sched c' rest err h
 
 /-- C01: two read schedules (any cut positions, any placement of failed/empty reads) that each
     either read the whole stream or reach an error deliver the same requests (all fields, same
@@ -68,7 +69,7 @@ theorem schedule_independent (P : Params RL H) (hP : P.WF) (L : Nat) (stream : L
     (h₂ : runSched P (Conn.new L) stream s₂ = (c₂, r₂, e₂))
     (d₁ : e₁.isSome ∨ r₁ = []) (d₂ : e₂.isSome ∨ r₂ = []) :
     c₁.parsed = c₂.parsed ∧ c₁.respQ = c₂.respQ ∧ e₁ = e₂ := by
-  sorry
+  exact schedule_independent' P hP L stream s₁ s₂ c₁ c₂ r₁ r₂ e₁ e₂ h₁ h₂ d₁ d₂
 
 /-- Segmentation independence of the specification itself. -/
 theorem feed_append (P : Params RL H) (L : Nat) (a : Abs RL H) (xs ys : List Byte) :
@@ -76,6 +77,6 @@ theorem feed_append (P : Params RL H) (L : Nat) (a : Abs RL H) (xs ys : List Byt
       match feed P L a xs with
       | (o, .error e) => (o, .error e)
       | (o, .ok a') => let (o', r) := feed P L a' ys; (o ++ o', r) := by
-  sorry
+  exact MicroHttp.feed_append P L a xs ys
 
 end MicroHttp.C01
